@@ -3,6 +3,7 @@
 include!(concat!(env!("OUT_DIR"), "/gram_mods.rs"));
 
 pub mod checks;
+pub mod dterm;
 pub mod gens;
 pub mod refs;
 pub mod runner;
